@@ -749,7 +749,7 @@ def small_scope(quick):
                 for k2 in range(1, n // k + 2):
                     yield {"stream": "small-scope", "op": "chain", "src": src, "steps": [["block", k], ["block", k2]]}
     # identify_peaks: every pattern of five levels on up to L bins (baseline 1, cut-off 5, table of ones)
-    L = 5 if quick else 7
+    L = 6 if quick else 7
     for n in range(1, L + 1):
         for pat in itertools.product(range(5), repeat=n):
             p = [LEVELS[i] for i in pat]
@@ -810,7 +810,7 @@ def cases(tier, rng):
     yield from small_scope(quick)
 
     # ---- random spectra: Parseval / scale / shift / windows
-    N = 500 if quick else 12000
+    N = 1500 if quick else 12000
     r = rng.fork("c10-psd")
     for i in range(N):
         sub = r.fork(i)
@@ -821,7 +821,7 @@ def cases(tier, rng):
         yield {"stream": "random", "op": "psd", "x": gen_signal(sub, n), "fs": fs, "ws": gen_ws(sub, n, fs), "a": a, "c": c, "subseed": i}
 
     # ---- random chains on computed spectra and on injected arrays
-    M = 900 if quick else 25000
+    M = 3000 if quick else 25000
     r = rng.fork("c10-chain")
     for i in range(M):
         sub = r.fork(i)
@@ -908,7 +908,7 @@ RULE = (
     "half-integer grid around 4-5 small frequency grids incl. duplicates/unsorted; _exclude_range: every single range "
     "and every pair of ranges on that grid; block averaging: every length <= 13 (quick 9) x every block size 0..n+1, "
     "and twice in a row; identify_peaks: every pattern of the five levels {below baseline, = baseline, between, "
-    "= cut-off, above} on 1..7 (quick 5) bins; PowerSpectrum of every length 4..33 (quick 12) with every window "
+    "= cut-off, above} on 1..7 (quick 6) bins; PowerSpectrum of every length 4..33 (quick 12) with every window "
     "length 1..N+1 and no window) + seeded random: signals of length 4-96 (integers, dyadic rationals, noisy "
     "sines, noise, impulses, Nyquist alternation, large offsets, constants), sample rates (dyadic, 1000/3, "
     "log-uniform), windows given in seconds (exact, +-0.3, +-0.49 and +-0.5 sample ties, longer than the data), "
